@@ -164,7 +164,7 @@ func genEntityOpt(r *vh.Rand, second bool, forcedName string) *entityDecl {
 		d.Name = forcedName
 	}
 	if r.Chance(15) {
-		d.BaseURL = vh.Pick(r, []string{"x/y", "custom", "a/b/c_d", "v1/things"})
+		d.BaseURL = vh.Pick(r, []string{"x/y", "custom", "a/b/c_d", "v1/things", "/rooted/", "dbl//slash", "trail/"})
 	}
 	// keys
 	ks := nameSet{snakeKey("page"): true, snakeKey("query"): true, snakeKey("events"): true}
@@ -251,7 +251,7 @@ func genEntityOpt(r *vh.Rand, second bool, forcedName string) *entityDecl {
 			c.Name = &n
 		}
 		if r.Chance(40) {
-			c.Base = ptr(vh.Pick(r, []string{"sp", "admin", "x/y", "ops_2"}))
+			c.Base = ptr(vh.Pick(r, []string{"sp", "admin", "x/y", "ops_2", "/lead", "trail/", "a//b", "/"}))
 		}
 		if r.Chance(35) {
 			c.Audience = vh.Pick(r, [][]string{{"admin"}, {"ops", "admin"}, {"public"}})
@@ -281,6 +281,17 @@ func genEntityOpt(r *vh.Rand, second bool, forcedName string) *entityDecl {
 				parts = append(parts, vh.Pick(r, []string{"go", "run", "action"}))
 			}
 			m.Path = strings.Join(parts, "/")
+			// path.Join cleans what the declaration leaves unclean
+			switch r.Intn(8) {
+			case 0:
+				m.Path = "/" + m.Path
+			case 1:
+				if m.Path != "" {
+					m.Path += "/"
+				}
+			case 2:
+				m.Path = strings.Replace(m.Path, "/", "//", 1)
+			}
 			c.Methods = append(c.Methods, m)
 		}
 		d.Commands = append(d.Commands, c)
@@ -473,7 +484,7 @@ const c17Shard = 25
 func runC17(cfg *vh.Config) error {
 	log.SetOutput(io.Discard) // the compiler logs every walker error
 	res := vh.NewResult("C17", cfg.Seed)
-	res.Rule = "entity declarations: name casings (fixed list incl. trailing capitals/acronyms/digits/underscores + generated identifiers), 1-4 keys (key-typed id62/uuid/plain with primary/tenant, or scalar) x shard flag x required, 0-4 data fields over 9 scalar types + keys, 1-4 statuses (+ the UNSPECIFIED-first and prefixed-name edge cases), foreign keys, optional fields, methods without response, objects declared in the entity block and object references to them / to the generated Keys and Data, 0-3 events with 0-3 fields, 0-2 command services (default/named, base path, own options block with audience/default auth, 0-2 methods with path parameters), boolean attributes also spelled out as false (primary/shardKey/required/optional/eventsInGet = false), 0-2 summaries (default/named), optional query settings; 20% of the files declare two entities; malformed: unknown default status, duplicate summary, optional+required field, path parameter that is not a request field, dangling object reference; plus the strcase stream; non-trivial = distinct declaration text"
+	res.Rule = "entity declarations: name casings (fixed list incl. trailing capitals/acronyms/digits/underscores + generated identifiers), 1-4 keys (key-typed id62/uuid/plain with primary/tenant, or scalar) x shard flag x required, 0-4 data fields over 9 scalar types + keys, 1-4 statuses (+ the UNSPECIFIED-first and prefixed-name edge cases), foreign keys, optional fields, methods without response, objects declared in the entity block and object references to them / to the generated Keys and Data, 0-3 events with 0-3 fields, 0-2 command services (default/named, base path (also with leading/trailing/double slashes, cleaned by path.Join), own options block with audience/default auth, 0-2 methods with path parameters), boolean attributes also spelled out as false (primary/shardKey/required/optional/eventsInGet = false), 0-2 summaries (default/named), optional query settings; 20% of the files declare two entities; malformed: unknown default status, duplicate summary, optional+required field, path parameter that is not a request field, dangling object reference; plus the strcase stream; non-trivial = distinct declaration text"
 	cf := &vh.CasesFile{
 		Header: "From Coq Require Import String List NArith.\nFrom J5V.lib Require Import Outcome.\nFrom J5V.model Require Import Entity EntityCorr.",
 		Type:   "c17case",
